@@ -1,5 +1,5 @@
 """Static text for MANIFEST.json (see gen_manifest.py)."""
-CLAIMED = []
+CLAIMED = ["C01", "C02", "C03", "C05", "C06", "C07", "C08", "C13", "C18"]
 
 NOTES = ("All checks are seeded searches (VERIF_SEED) over generated worlds executed end-to-end by the "
          "unmodified simulator under monitors; see DESIGN.md. Exit 0 = held (KNOWN-FINDING lines allowed), "
@@ -11,4 +11,58 @@ NOT_APPLICABLE = [
 ]
 
 _G = "DESIGN.md section 4"
-TEXT = {}
+
+_NOTE = ("Trusted base: the harness (world generator, monitors, reference ledger/parent map taken from "
+         "the world spec, shrinker) and CPython. Sampling, not proof: a clean batch bounds nothing outside "
+         "the worlds that were run. Worlds are small (<=3 pools x <=3 workers, <=8 nodes per graph, <=6 "
+         "invocations); preemptive runs are not generated.")
+
+
+def _t(level, technique, ref="DESIGN.md section 4", note=_NOTE):
+    return {"level": level, "technique": technique, "ref": ref, "note": note}
+
+
+TEXT = {
+    "C01": _t("Seeded exploration: thousands of generated clusters/workloads are executed end-to-end by the "
+              "unmodified Simulator (EDF/FIFO/LSF and the contract-abiding ChaosPolicy); at every event boundary "
+              "an integer shadow ledger driven by the observed Worker.place_task/remove_task/load/evict calls is "
+              "compared with each worker's capacity and with the worker's own getters. Right level because "
+              "oversubscription only shows at particular instants of particular runs.",
+              "deterministic simulation: shadow-ledger invariant at every event boundary, chaos placements, runtime overrun"),
+    "C02": _t("Seeded exploration of whole runs; every observed Task.start is checked against the task's release "
+              "and the completion of its predecessors taken from the world spec (join: one completed branch), "
+              "at-most-once start/finish, and the same facts are re-derived from the CSV rows.",
+              "deterministic simulation: online start/finish monitor + trace re-derivation, plan-ahead chaos decisions, runtime overrun"),
+    "C03": _t("Seeded exploration with tie-heavy worlds; monitors check monotone clock, event time order, "
+              "finish = start + runtime (variance: within the documented rounded interval), resources held until "
+              "the finish, start >= chosen time, and start exactly at the chosen time when the shadow state says "
+              "predecessors are done and the pool can hold the strategy.",
+              "deterministic simulation: clock/runtime/start-time invariants over same-microsecond event interleavings"),
+    "C05": _t("Seeded exploration under the bundled policies with a step-based watchdog (livelock / Zeno "
+              "detection without wall clocks) and post-run liveness oracles: SIMULATOR_END exists and is not "
+              "after the timeout, no crash, feasible worlds under EDF/FIFO/LSF complete every task before a "
+              "(checked) generous timeout, never an end while runnable work remains.",
+              "deterministic simulation: step watchdog + bounded-liveness oracle, zero-length tasks, overrun, timeout cuts"),
+    "C06": _t("Seeded exploration; every task state change (through the lifecycle API or directly) is checked "
+              "against the legal state machine, and after the run cancellation is checked to be closed downstream "
+              "(dead descendants never started and are CANCELLED with a row) and graph completion reported exactly "
+              "when all sinks completed.",
+              "deterministic simulation: state-machine monitor + downstream-closure oracle, chaos cancels/retractions, deadline enforcement, drop-skipped"),
+    "C07": _t("Seeded exploration of graphs with (nested) conditional/terminal pairs; per completed conditional: "
+              "exactly one child released, never a zero-probability one, untaken branches cancelled and never "
+              "started up to the matching terminal, the join runs once after the taken branch.",
+              "deterministic simulation: post-run branch oracle over many random draws"),
+    "C08": _t("Seeded exploration; the CSV rows and the SIMULATOR_END counters are compared with the monitors' own "
+              "record of what happened (times, deadlines, pools, resources, scheduler counts), then the same rows "
+              "are fed to the project's CSVReader whose reconstruction must match; timeout cuts act as crash points.",
+              "deterministic simulation: trace-vs-ground-truth oracle + project CSVReader on every trace"),
+    "C13": _t("Seeded exploration of EDF/FIFO/LSF runs on single-worker pools; at each real invocation a "
+              "first-principles ledger replays the placed tasks of higher-or-equal priority and requires that an "
+              "unplaced task fits nowhere.",
+              "deterministic simulation: per-invocation priority oracle on states reached by real runs"),
+    "C18": _t("Seeded exploration; every real Workload.get_schedulable_tasks call and every task-completion "
+              "notification in a run is compared with a reference frontier built from the shadow task states and "
+              "the spec's parent map.",
+              "deterministic simulation: per-call frontier oracle + completion-release oracle"),
+}
+
